@@ -57,3 +57,10 @@ def dense_obs(obj, sym):
 def frac(x):
     f = Fraction(float(np.real(x))).limit_denominator(10000)
     return [f.numerator, f.denominator]
+
+
+def random_sector(ops, N, rng):
+    """ total charge of a random product state: always an admissible sector """
+    leg = ops.space()
+    ts = [leg.t[rng.randrange(len(leg.t))] for _ in range(N)]
+    return ops.config.sym.add_charges(*ts) if ts and ops.config.sym.NSYM else None
